@@ -138,6 +138,7 @@ fn replay(sink: &mut common::Sink, toks: &[&str]) {
         "serc" | "serp" | "serbufs" | "serbufx" | "disp" => c03::replay(sink, toks),
         "dispf" | "dispn" => c03::replay(sink, toks),
         "maphist" | "mapeqh" | "mapeq" | "maphash" | "mapsort" => c17::replay(sink, toks),
+        "mapiter" => c17::replay(sink, toks),
         "f64lit" | "f32lit" => c08::replay(sink, toks),
         "tov" | "tovagree" => c15::replay(sink, toks),
         "c16" => c16::replay(sink, toks),
